@@ -104,6 +104,9 @@ def make_cases(T, idx, quick):
         kinds.append("anon")
     if cast_source(T):
         kinds.append("arrcast")
+    if self_literal(T, "L", None) is not None:
+        kinds.append("selflit")
+    kinds.append("selfcall")
     placements = ["local", "field", "elem"]
     if has_default(T):
         kinds.append("default")
@@ -165,6 +168,16 @@ def make_cases(T, idx, quick):
             body.append(f"{L} = {T.lit(v1)}; t := {L}; t{path} = {leaf.lit(newleaf)};")
             tv = _set_path(T, v1, path, newleaf)
             extra_show.append((T, "t", tv))
+        elif kind == "selflit":
+            # a literal that reads the place it is assigned to (members rotated among members of the same type)
+            src, final = self_literal(T, L, v1)
+            body.append(f"{L} = {T.lit(v1)}; {L} = {src};")
+        elif kind == "selfcall":
+            # the place is both the argument and the destination of the result
+            decls.append(f"sc_{uid} :: (x: {T.spell()}) -> {T.spell()} {{ r : {T.spell()} = {T.lit(v2)}; if {G['h1']} == 0 {{ return r; }} x }}")
+            decls.append(f"sd_{uid} :: (x: {T.spell()}) -> {T.spell()} {{ r : {T.spell()} = {T.lit(v2)}; r }}")
+            body.append(f"{L} = {T.lit(v1)}; {L} = sc_{uid}({L}); t := sd_{uid}({L});")
+            extra_show.append((T, "t", v2))
         elif kind == "anon":
             body.append(f"an := {T.lit_anon_reversed(v1)}; {L} = an;")
         elif kind == "arrcast":
@@ -189,7 +202,43 @@ def make_cases(T, idx, quick):
         key = f"{T.spell()}/{placement}/{kind}/{shape}"
         cases.append(Case(key, "\n".join(body), fmt_leaves(out), decls="\n".join(decls),
                           meta={"type": T.spell(), "size_hint": T.size_hint()}))
+    # values passed to a variadic parameter: the caller builds a temporary array of them (every element, the length, and
+    # guards around the call are observed)
+    for n in (1, 2, 3, 5):
+        seed = next(_uid) + 1
+        vals = [T.val(seed * 7 + j) for j in range(n)]
+        uid = f"t{idx}_{seed}"
+        f2 = Fresh(f"r{idx}x")
+        decls = (f"va_{uid} :: (h1: u64, xs: ...{T.spell()}) {{ pr(i64.(h1)); pr(i64.(xs.len)); i : usize = 0; "
+                 f"while i < xs.len {{ {T.show('xs[i]', f2)} i += 1; }} }}")
+        body = (f"g1 : u64 = {G['g1']}; g2 : u8 = {G['g2']};\nva_{uid}({G['h1']}, " + ", ".join(T.lit(v) for v in vals) + ");\n"
+                f"g3 : u64 = {G['g3']}; pr(i64.(g1)); pr(i64.(g2)); pr(i64.(g3));")
+        out = [G["h1"], n]
+        for v in vals:
+            out += T.leaves(v)
+        out += [G["g1"], G["g2"], G["g3"]]
+        cases.append(Case(f"{T.spell()}/varargs/{n}", body, fmt_leaves(out), decls=decls, meta={"type": T.spell(), "size_hint": T.size_hint()}))
     return cases
+
+
+def self_literal(T, L, v):
+    """-> (source text of a literal of T whose members read L with same-typed members rotated, rotated model value) or None"""
+    if isinstance(T, Arr) and T.n >= 2:
+        src = f"{T.sub.spell()}.[" + ", ".join(f"{L}[{(i + 1) % T.n}]" for i in range(T.n)) + "]"
+        return src, (None if v is None else [v[(i + 1) % T.n] for i in range(T.n)])
+    if isinstance(T, Struct):
+        groups = {}
+        for n, t in T.fields:
+            groups.setdefault(t.spell(), []).append(n)
+        if not any(len(g) >= 2 for g in groups.values()):
+            return None
+        source_of = {}
+        for g in groups.values():
+            for i, n in enumerate(g):
+                source_of[n] = g[(i + 1) % len(g)]
+        src = f"{T.name}.{{ " + ", ".join(f"{n} = {L}.{source_of[n]}" for n, _ in T.fields) + " }"
+        return src, (None if v is None else {n: v[source_of[n]] for n, _ in T.fields})
+    return None
 
 
 def has_default(T):
@@ -262,7 +311,7 @@ def run(tier, seed):
         cs = make_cases(T, i, quick)
         if quick and T.spell().startswith("B") and isinstance(T, Struct) and T.name[1:].isdigit():
             # quick: every size keeps every placement with the plain, idarg and ret kinds
-            cs = [c for c in cs if c.key.split("/")[2] in ("plain", "idarg", "ret", "copy")]
+            cs = [c for c in cs if c.key.split("/")[2] in ("plain", "idarg", "ret", "copy") or c.key.split("/")[1] == "varargs" or c.key.split("/")[2] == "selflit"]
         cases += cs
     runner = core.Runner("c02", batch_size=60, prelude=prelude)
     mism = runner.run(cases)
@@ -275,7 +324,7 @@ def run(tier, seed):
         "exhaustive": True,
         "rule": "a case = (type, placement, write kind, shape of the written value); states = cases compiled by the real CLI and executed; "
                 "transitions = leaf values observed (guards, written place, copies) and compared with the value-semantics model",
-        "bounds_completed": {"types": len(tys), "placements": 3, "write_kinds": 9, "payload_sizes_bytes": f"{sizes[0]}..{sizes[-1]}",
+        "bounds_completed": {"types": len(tys), "placements": 3, "write_kinds": 11, "variadic_argument_counts": [1, 2, 3, 5], "payload_sizes_bytes": f"{sizes[0]}..{sizes[-1]}",
                              "byte_struct_sizes": "every size 1..64"},
         "distinct_outcomes": len(outcomes),
         "compilations": runner.compiles,
